@@ -40,6 +40,8 @@ func main() {
 		hyperbCmd(out, *seed, *tier)
 	case "clientv":
 		clientvCmd(out, *seed, *tier)
+	case "canonlarge":
+		canonLargeCmd(out, *seed, *tier)
 	default:
 		fmt.Fprintln(os.Stderr, "unknown command", cmd)
 		os.Exit(2)
